@@ -20,7 +20,7 @@ CONSTANTS Family,     \* "event1" | "event2" | "raw" | "rawevent" | "join"
           Depth,      \* "core" | "full" | "extra" | "edge" | "none" (only the well-formed subject): class sets
           FieldSet,   \* "core": identifier / structure / content fields only; "edge": those plus numbers, signatures,
                       \* pseudo-ID keys, spellings and a few duplicated keys; "full": every field (few duplicated
-                      \* keys); "all": every field and every duplicated key
+                      \* keys); "all": every field and every duplicated key; "sig": the signatures object
           Entries,    \* the constructors that start a pipeline (ParseOps)
           MaxOps,     \* longest pipeline (operations, the parse included)
           Heavy,      \* heavy observers applied directly after the parse
@@ -56,6 +56,10 @@ VersionsFourQ == {"2", "5", "12", "org.matrix.msc4014"}
 EntriesAll == ParseOps
 EntriesUntrusted == {"Parse:untrusted"}
 MutsTwo == {"Redact", "Sign"}
+\* the family of signature entries x the pipelines that (counter)sign
+MutsSign == {"Sign", "SetUnsigned"}
+HeavySign == {"Handle:Invite", "Handle:SendJoin", "Perform:Invite", "VerifySignatures"}
+TypesSign == {"member", "member_tpi", "message"}
 VersionsFive == {"2", "5", "11", "12", "org.matrix.msc4014"}
 HeavyLiteSet == HeavyLite
 HeavyMid == {"VerifySignatures", "AuthCheck:event", "AuthCheck:provider", "AddToProvider", "Resolve:new:both", "Resolve:old:both",
@@ -83,9 +87,10 @@ FieldsC(v, t) ==
            {f \in Fields(v, t) : /\ f.grp \in CoreGroups /\ f \notin DupFields /\ f.kind # "pseudokey"
                                   /\ (f.grp = "event_id" => EventFormat(v) = 1)}
       [] FieldSet = "edge" ->
-           {f \in Fields(v, t) : /\ f.grp \in EdgeGroups /\ (f \in DupFields => f \in EdgeDup)
+           {f \in Fields(v, t) : /\ f.grp \in EdgeGroups /\ (f \in DupFields => f \in EdgeDup) /\ f.kind # "sigentry"
                                   /\ (f.kind = "json" => f.path = "content")      \* of the JSON-valued fields only the content itself
                                   /\ (f.grp = "event_id" => EventFormat(v) = 1)}
+      [] FieldSet = "sig" -> {f \in Fields(v, t) : f.kind \in {"sigentry", "sigs"} /\ f.grp = "signatures"}   \* the signatures object only
       [] FieldSet = "full" -> Fields(v, t) \ (DupFields \ EdgeDup)     \* every field; of the duplicated keys a selection
       [] OTHER -> Fields(v, t)                                         \* "all"
 
